@@ -159,7 +159,7 @@ fn tail_byte(t: u64, k: usize) -> u8 {
 fn hdr_states(t: Tier) -> &'static [u64] {
     match t {
         Tier::Quick => &[0, 3, 11],
-        Tier::Thorough => &[0, 1, 3, 5, 6, 9, 10, 11],
+        Tier::Thorough => &[0, 1, 2, 3, 4, 5, 6, 7, 8, 9, 10, 11],
     }
 }
 
@@ -411,7 +411,7 @@ fn check_huge(c: &HugeCase, st: &mut Stats) -> Result<(), String> {
 pub fn property() -> Property {
     Property {
         id: "C05",
-        rule: "enumerated: every byte string of length 0..=3 in 12 receiver state classes (quick: lengths 0..=2 in all 12 + length 3 in 2 states), and all 65536 fixed headers x 32 truncation lengths (0..=20 and pkt_len-8..=pkt_len+2) x 7 adversarial tails x 3 (quick) / 8 (thorough) states; generated: random and mutated-valid buffers up to 2/8 KiB in random reachable states. oracle per buffer (walked to its end by consumed lengths): no panic in decap or get_label_or_frag_id, consumed <= len, consumed >= min(2,len) for non-empty buffers, walker terminates in <= len/2+1 steps. non-trivial = the call got past the two frame-level guards and reached a per-type decoder; enumerated cases are distinct by construction, generated ones by structural hash",
+        rule: "enumerated: every byte string of length 0..=3 in 12 receiver state classes (quick: lengths 0..=2 in all 12 + length 3 in 2 states), and all 65536 fixed headers x 32 truncation lengths (0..=20 and pkt_len-8..=pkt_len+2) x 7 adversarial tails x 3 (quick) / all 12 (thorough) states; generated: random and mutated-valid buffers up to 2/8 KiB in random reachable states. oracle per buffer (walked to its end by consumed lengths): no panic in decap or get_label_or_frag_id, consumed <= len, consumed >= min(2,len) for non-empty buffers, walker terminates in <= len/2+1 steps. non-trivial = the call got past the two frame-level guards and reached a per-type decoder; enumerated cases are distinct by construction, generated ones by structural hash",
         assumptions: &["states are reached through the public API only (valid RefCodec traffic + provisioning)", "harness profile enables overflow checks, so arithmetic wrap inside the crate surfaces as a panic"],
         parts: vec![
             Box::new(EnumPart {
@@ -435,7 +435,7 @@ pub fn property() -> Property {
             Box::new(GenPart {
                 name: "random-and-mutated",
                 rule: "random reachable state + random or mutated-valid buffer",
-                cases: (1_200_000, 10_000_000),
+                cases: (1_200_000, 30_000_000),
                 fuzz_decode: Some(crate::fuzzdec::c05_rand),
                 strategy: rand_strategy,
                 check: check_rand,
@@ -444,7 +444,7 @@ pub fn property() -> Property {
             Box::new(GenPart {
                 name: "long-trains-huge-storage",
                 rule: "first + 10..40 intermediates of 3000..4094 bytes + end into storages of 65000..140000 bytes (accumulated length beyond 16 bits)",
-                cases: (12_000, 100_000),
+                cases: (12_000, 300_000),
                 fuzz_decode: None,
                 strategy: huge_strategy,
                 check: check_huge,
